@@ -53,6 +53,12 @@ def plan(prop, tier, seed):
             ("asan", f"n=4,e=4,m=2,x=1,plain=1,sameref=0,bare=0,keep=0,layouts={L(2)}", []),
             ("asan", f"n=3,e=5,m=2,x=1,plain=1,sameref=1,bare=0,keep=0,layouts={L(2)}", []),
         ]
+    if prop == "C06" and q:
+        return [
+            ("asan", f"n=3,e=2,m=2,x=2,w=1,ws=1,weak=1,plain=1,sameref=1,bare=0,keep=0,layouts={L(2)}", []),
+            ("asan", f"n=3,e=3,m=2,x=2,{CORE},layouts={L(2)}", []),
+            ("asan", f"n=3,e=2,m=2,x=2,w=1,ws=0,weak=1,plain=1,sameref=0,bare=0,keep=0,consume=1,layouts={L(2)}", []),
+        ]
     if prop in ("C02", "C04", "C06"):
         if q:
             return [
@@ -63,10 +69,13 @@ def plan(prop, tier, seed):
             ("asan", f"n=3,e=3,m=2,x=2,w=1,ws=1,weak=1,plain=1,sameref=1,bare=0,keep=0,layouts={L(2)}", []),
             ("asan", f"n=2,e=4,m=3,x=2,w=2,ws=2,weak=1,{CORE},layouts={L(4)}", []),
             ("asan", f"n=3,e=4,m=3,x=2,{CORE},late=1,layouts={L(4)}", []),
-        ]
+        ] + ([("asan", f"n=3,e=3,m=2,x=2,w=1,ws=0,weak=1,plain=1,sameref=0,bare=0,keep=0,consume=1,layouts={L(2)}", [])] if prop == "C06" else [])
     if prop == "C05":
         if q:
-            return [("asan", f"n=3,e=2,m=1,x=1,w=1,ws=1,weak=1,plain=1,sameref=0,bare=0,keep=0,s=1,sown=1,layouts={L(2)}", [])]
+            return [
+                ("asan", f"n=3,e=2,m=1,x=1,w=1,ws=1,weak=1,plain=1,sameref=0,bare=0,keep=0,s=1,sown=1,layouts={L(2)}", []),
+                ("asan", f"n=2,e=2,m=2,x=1,w=2,ws=2,weak=1,plain=1,sameref=0,bare=0,keep=0,s=1,sown=1,layouts={L(2)}", []),
+            ]
         return [
             ("asan", f"n=3,e=3,m=2,x=1,w=1,ws=1,weak=1,plain=1,sameref=0,bare=0,keep=0,s=1,sown=1,layouts={L(2)}", []),
             ("asan", f"n=2,e=3,m=2,x=2,w=2,ws=2,weak=1,plain=1,sameref=0,bare=0,keep=0,s=1,sown=1,layouts={L(3)}", []),
@@ -197,7 +206,14 @@ def attributed_to(prop, clause, sig, history):
     primary = attribute(clause, sig, history)
     if primary == prop:
         return True
-    if prop == "C05" and clause == "CRASH" and primary == "C02" and ("Weak" in sig):
+    ops = history.split(",") if history else []
+    uses_weak = any(o.split(":")[0] in ("downgrade", "storeweak", "cloneweak") for o in ops)
+    if prop == "C05" and clause == "CRASH" and primary == "C02" and ("Weak" in sig or uses_weak):
+        # the allocation of an object must stay valid while Weak handles to it exist and
+        # the strong side is still at work: a memory error in a history with Weak handles
+        return True
+    if prop == "C06" and clause == "K6" and primary in ("C12", "C10"):
+        # counts are exact after every operation, also the handle-consuming ones
         return True
     return False
 
